@@ -274,7 +274,7 @@ theorem WinOK.rep {ms z : List Nat} {k S V : Nat} (hm : ModOK ms k) (h : WinOK m
   rw [Nat.mod_eq_of_lt h.lt] at this
   exact this
 
-/-- `2^min(leading_zeros(m), 63) · m ≤ B^n`: the accumulation limit `max_accum` never admits more terms than one
+/-- `2^min(leading_zeros(m), 63) · m ≤ B^n`: the accumulation limit `max_accum` never lets in more terms than one
     window can hold. -/
 theorem lz_ok {n m : Nat} (hm : m < B ^ n) (hpos : 0 < m) : 2 ^ (Nat.min (leadingZeros n m) 63) * m ≤ B ^ n := by
   have hne : m ≠ 0 := by omega
